@@ -280,3 +280,63 @@ func dump(sb *[]byte, v reflect.Value, depth int) {
 		*sb = append(*sb, ("<" + v.Kind().String() + ">")...)
 	}
 }
+
+// Rehome moves every non-empty byte-slice reachable from the exported fields of x into ONE backing
+// array, back to back, each slice keeping spare capacity that runs into its successor's bytes — the
+// layout a zero-copy parser or a caller slicing one request buffer produces. It returns the number
+// of slices moved. An encoder must neither depend on nor write through that layout.
+func Rehome(x any) int {
+	var slices []reflect.Value
+	var walk func(v reflect.Value, depth int)
+	walk = func(v reflect.Value, depth int) {
+		if depth > 6 {
+			return
+		}
+		switch v.Kind() {
+		case reflect.Ptr, reflect.Interface:
+			if !v.IsNil() {
+				walk(v.Elem(), depth+1)
+			}
+		case reflect.Struct:
+			for i := 0; i < v.NumField(); i++ {
+				if v.Type().Field(i).PkgPath == "" && v.Type().Field(i).Name != "Parameters" && v.Type().Field(i).Name != "Data" || v.Type().Field(i).Type.Kind() == reflect.Slice && v.Type().Field(i).PkgPath == "" {
+					walk(v.Field(i), depth+1)
+				}
+			}
+		case reflect.Slice:
+			if v.Type().Elem().Kind() == reflect.Uint8 {
+				if v.Len() > 0 && v.CanSet() {
+					slices = append(slices, v)
+				}
+				return
+			}
+			for i := 0; i < v.Len(); i++ {
+				walk(v.Index(i), depth+1)
+			}
+		case reflect.Array:
+			for i := 0; i < v.Len(); i++ {
+				walk(v.Index(i), depth+1)
+			}
+		}
+	}
+	walk(reflect.ValueOf(x), 0)
+	if len(slices) == 0 {
+		return 0
+	}
+	total := 0
+	for _, s := range slices {
+		total += s.Len()
+	}
+	big := make([]byte, total+8)
+	for i := total; i < len(big); i++ {
+		big[i] = 0xEE
+	}
+	off := 0
+	for _, s := range slices {
+		n := s.Len()
+		copy(big[off:], s.Bytes())
+		s.SetBytes(big[off : off+n]) // capacity extends over everything that follows
+		off += n
+	}
+	return len(slices)
+}
